@@ -391,6 +391,93 @@ theorem C19_link_dests (ri : RunInput) (p : Path) :
     simp only [extractDests, hz, Bool.false_eq_true, if_false]
     exact List.mem_append_left _ (List.mem_cons_of_mem _ List.mem_cons_self)
 
+/-! ### removals -/
+
+/-- The merged profile of the source-based path: for every run and every worker that merges
+profiles, the path handed to `llvm-profdata -o` and removed again afterwards (fix 2cb069b) is
+`tmp/<worker>/grcov.profdata` — built from the temp dir and the worker index only, never from an
+input path (so a profile given as a plain file argument, even the only one, is not what is
+removed) — and it resolves below the temp dir. -/
+theorem C19_profdata_removal_confined (ri : RunInput) (i : Nat) (hi : i ∈ ri.profileJobs) :
+    let p : Path := ri.tmp ++ [Comp.normal (dec i), Comp.normal bGrcovProfdata]
+    (⟨.toolWrite, .tmp, p⟩ : Dest) ∈ dests ri ∧ (⟨.removeFile, .tmp, p⟩ : Dest) ∈ dests ri ∧ Under ri.tmp p := by
+  have e : profdataPath (workerDir ri.tmp i) = ri.tmp ++ [Comp.normal (dec i), Comp.normal bGrcovProfdata] := by
+    simp only [profdataPath, workerDir_eq]
+    rw [join_of_enclosed _ (enc1 _)]
+    simp
+  refine ⟨?_, ?_, under_append_enclosed _ _ (by rfl)⟩
+  · unfold dests
+    simp only [List.mem_append, List.mem_flatMap]
+    exact Or.inl (Or.inr ⟨i, hi, by rw [e]; simp⟩)
+  · unfold dests
+    simp only [List.mem_append, List.mem_flatMap]
+    exact Or.inl (Or.inr ⟨i, hi, by rw [e]; simp⟩)
+
+/-- EVERY file a run removes lies inside a worker directory `tmp/<w>/…`: its path is the temp dir,
+a worker index, and normal components only — for all inputs (gcno paths, walked names, profiles,
+archives, reports). No removal target is derived from an input location. -/
+theorem C19_removals_inside_worker_dirs (ri : RunInput) (hext : ∀ j ∈ ri.gcovJobs, 47 ∉ j.2.2) :
+    ∀ d ∈ dests ri, d.kind = .removeFile →
+      d.root = .tmp ∧ ∃ w rest, d.path = ri.tmp ++ Comp.normal (dec w) :: rest ∧ plain rest = true := by
+  intro d hd hk
+  unfold dests at hd
+  simp only [List.mem_append, List.mem_map, List.mem_flatMap, List.mem_range, List.mem_cons,
+    List.not_mem_nil, or_false] at hd
+  rcases hd with ((((((hd | hd) | hd) | hd) | hd) | hd) | hd) | hd
+  · cases hl : ri.log with
+    | none => simp [hl] at hd
+    | some l => simp [hl] at hd; subst hd; simp at hk
+  · subst hd; simp at hk
+  · obtain ⟨i, _, rfl⟩ := hd; simp at hk
+  · obtain ⟨e, _, hd⟩ := hd
+    unfold extractDests at hd
+    simp only [List.mem_append, List.mem_cons, List.not_mem_nil, or_false, List.mem_map] at hd
+    rcases hd with (rfl | rfl) | ⟨k, _, rfl⟩
+    · simp at hk
+    · cases hz : e.fromZip <;> simp [hz] at hk
+    · simp at hk
+  · obtain ⟨j, hj, hd⟩ := hd
+    unfold gcovDests at hd
+    cases hg : gcovOutPath (workerDir ri.tmp j.1) j.2.1 j.2.2 with
+    | none => simp [hg] at hd; subst hd; simp at hk
+    | some p =>
+      simp only [hg, List.mem_cons, List.not_mem_nil, or_false] at hd
+      rcases hd with rfl | rfl
+      · simp at hk
+      · obtain ⟨⟨n, _, e⟩, _⟩ := C19_gcov_out_confined _ _ _ _ (hext j hj) hg
+        refine ⟨rfl, j.1, [Comp.normal n], ?_, rfl⟩
+        simp [e, workerDir_eq]
+  · obtain ⟨w, _, rfl⟩ := hd
+    refine ⟨rfl, w.1, w.2.map Comp.normal, ?_, plain_map_normal _⟩
+    simp [walkEntry, workerDir_eq]
+  · obtain ⟨i, _, hd⟩ := hd
+    rcases hd with rfl | rfl
+    · simp at hk
+    · refine ⟨rfl, i, [Comp.normal bGrcovProfdata], ?_, rfl⟩
+      simp only [profdataPath, workerDir_eq]
+      rw [join_of_enclosed _ (enc1 _)]
+      simp
+  · exfalso
+    unfold outDests at hd
+    split at hd
+    · simp at hd
+    · simp at hd; subst hd; simp at hk
+    · simp only [List.mem_append, List.mem_flatMap] at hd
+      rcases hd with hd | ⟨r, _, hd⟩
+      · unfold htmlFixedDests at hd
+        simp only [List.mem_append, List.mem_cons, List.not_mem_nil, or_false, List.mem_map] at hd
+        rcases hd with (((rfl | rfl | rfl) | ⟨b, _, rfl⟩) | rfl) | hd
+        all_goals try (simp at hk)
+        split at hd <;> simp at hd
+        subst hd; simp at hk
+      · unfold htmlEntryDests at hd
+        split at hd
+        · split at hd
+          · simp at hd
+            rcases hd with rfl | rfl | rfl | rfl <;> simp at hk
+          · simp at hd
+        · simp at hd
+
 /-! ### non-vacuity -/
 
 /-- a run: temp dir `/t/.tmpX`, html output into the relative `o/h`, log file, 2 workers, one zip
@@ -416,6 +503,7 @@ example : resolve (htmlFileDest exRun.out [115, 114, 99, 47, 97, 46, 99])
 example : SafeRel [115, 114, 99, 47, 97, 46, 99] :=
   ⟨[[115, 114, 99], [97, 46, 99]], by decide, by decide, by decide⟩
 example : ∀ d ∈ dests exRun, Under (rootPath exRun d.root) d.path := by decide
+example : (⟨.removeFile, .tmp, exRun.tmp ++ [.normal [49], .normal bGrcovProfdata]⟩ : Dest) ∈ dests exRun := by decide
 example : Apart [.root, .normal [105, 110]] exRun.tmp := by unfold Apart; decide
 /-- the known collision inside the output directory (finding C13-html-root-dir-replaces-index,
 not a C19 matter) is predicted: a file directly under the root makes `index.html` a destination twice -/
